@@ -18,7 +18,8 @@ from .world import (
 
 
 class StepResult:
-    __slots__ = ("outcome", "violations", "exc", "trigger", "why", "fault_fired", "counts")
+    __slots__ = ("outcome", "violations", "exc", "trigger", "why", "fault_fired", "counts",
+                 "result")
 
     def __init__(self):
         self.outcome = ""
@@ -28,6 +29,7 @@ class StepResult:
         self.why = ""
         self.fault_fired = False
         self.counts = {}
+        self.result = None
 
 
 def _live_slots(w: World):
@@ -76,6 +78,7 @@ def run_step(w: World, op: dict, *, probes=None, index_every=True) -> StepResult
     finally:
         w.fault.disarm()
     res.exc = exc
+    res.result = result
     res.fault_fired = w.fault.fired
     res.counts = dict(w.fault.counts)
     viol = res.violations
